@@ -935,7 +935,7 @@ func TestVerifC19World(t *testing.T) {
 					gp.p.CloseIn(nd.ID(), true)
 					if kind == "closein_refuse" && router == "gossipsub" && c.Chance(0.7) {
 						// ... and it grafts itself over its own stream (accepted although the node has no stream to it), then maybe leaves
-						vSettle(time.Duration(c.Range(300, 1500)) * time.Millisecond)
+						vSettle(time.Duration(c.Range(0, 1500)) * time.Millisecond)
 						for _, jt := range topics {
 							if interest(jt) {
 								gp.p.Send(nd.ID(), vSubRPC(true, jt))
@@ -944,12 +944,21 @@ func TestVerifC19World(t *testing.T) {
 							}
 						}
 						kind = "closein_refuse_graft"
-						if c.Chance(0.5) {
+						switch c.Intn(4) {
+						case 0, 1:
 							vSettle(20 * time.Millisecond)
 							n.Disconnect(nd.ID(), gp.p.ID())
 							gp.p.ForgetStreams()
 							gp.attached = false
 							kind = "closein_refuse_graft_detach"
+						case 2:
+							// ... or is banned while it sits in the mesh without being a router peer (its own stream stays open)
+							if !gp.black {
+								vSettle(20 * time.Millisecond)
+								nd.ps.BlacklistPeer(gp.p.ID())
+								gp.black = true
+								kind = "closein_refuse_graft_blacklist"
+							}
 						}
 					}
 				case 4, 5, 6:
